@@ -29,11 +29,24 @@ def load_units(prop):
 
 
 def _worker(job):
-    prop, idx, tier, seed = job
+    prop, idx, case, tier, seed = job
     mod, units = load_units(prop)
     u = units[idx]
     registry = {x.name: x for x in units if isinstance(x, C.Contract)}
-    return run_unit(u, tier, seed, registry)
+    return run_unit(u, tier, seed, registry, case)
+
+
+def merge_results(parts):
+    out = parts[0]
+    for p in parts[1:]:
+        out['obligations'] += p.get('obligations', [])
+        out['errors'] += p.get('errors', [])
+        out['paths'] = out.get('paths', 0) + p.get('paths', 0)
+        out['trusted'] = sorted(set(out.get('trusted', [])) | set(p.get('trusted', [])))
+        out['contracts_used'] = sorted(set(out.get('contracts_used', [])) | set(p.get('contracts_used', [])))
+        out['sources'].update(p.get('sources', {}))
+        out['wall_s'] = round(out.get('wall_s', 0) + p.get('wall_s', 0), 3)
+    return out
 
 
 def load_known():
@@ -68,15 +81,24 @@ def main(argv):
     seed = int(os.environ.get('VERIF_SEED', '0') or 0)
     t0 = time.time()
     mod, units = load_units(prop)
-    jobs = [(prop, i, tier, seed) for i in range(len(units))]
+    jobs = []
+    for i, u in enumerate(units):
+        if isinstance(u, C.Contract) and len(u.cases) > 1:
+            jobs += [(prop, i, ci, tier, seed) for ci in range(len(u.cases))]
+        else:
+            jobs.append((prop, i, None, tier, seed))
     nproc = min(16, max(1, len(jobs)))
     if os.environ.get('VERIF_SERIAL'):
         results = [_worker(j) for j in jobs]
     else:
         with multiprocessing.get_context('fork').Pool(nproc) as pool:
             results = pool.map(_worker, jobs, chunksize=1)
+    grouped = {}
+    for j, r in zip(jobs, results):
+        grouped.setdefault(j[1], []).append(r)
+    results = [merge_results(grouped[i]) for i in range(len(units))]
     known = load_known()
-    obligations, bounded, errors = [], [], []
+    obligations, bounded, errors, bounded_obs = [], [], [], []
     trusted, sources, assumptions, contracts_used = set(), {}, [], set()
     violations, undecided, known_lines = [], [], []
     for u, r in zip(units, results):
@@ -92,9 +114,21 @@ def main(argv):
             if r['bounded'].get('result') == 'violation':
                 violations.append((r['bounded']['id'], r['bounded'].get('replay'), False))
             continue
+        is_bounded = getattr(u, 'bounded', None)
+        if is_bounded:
+            obs = r.get('obligations', [])
+            bounded.append({'id': u.uid, 'bound': is_bounded, 'label': 'bounded (not counted as proved)',
+                            'tool': 'pyvc symbolic execution, symbolic contents / concrete size',
+                            'obligations': len(obs), 'discharged': sum(1 for o in obs if o['result'] == 'discharged'),
+                            'result': 'clean' if all(o['result'] == 'discharged' for o in obs) else 'not clean',
+                            'wall_s': r.get('wall_s')})
         for ob in r.get('obligations', []):
             rec = {k: v for k, v in ob.items() if k not in ('cex',)}
-            obligations.append(rec)
+            if is_bounded:
+                rec['bounded'] = is_bounded
+                bounded_obs.append(rec)
+            else:
+                obligations.append(rec)
             if ob['result'] == 'refuted' or (ob['kind'] == 'vacuity' and ob['result'] != 'discharged'):
                 if ob['kind'] == 'vacuity':
                     errors.append('vacuity guard failed: %s' % ob['id'])
@@ -133,7 +167,7 @@ def main(argv):
             'samples': obligations[:400],
             'functions_under_contract': sources,
             'contracts_used_at_call_sites': sorted(contracts_used),
-            'bounded_standins': bounded,
+            'bounded_standins': bounded, 'bounded_obligations': bounded_obs[:200],
             'extraction_dropped': ['docstrings', 'print()/logging.*/sys.stderr.write calls (A5)', 'type annotations',
                                    'global statements', 'decorators other than property/staticmethod/classmethod'],
             'undecided': undecided, 'errors': errors,
